@@ -58,13 +58,43 @@ func runC12(c *engine.Ctx) {
 		}
 	}
 	if af := fn(c, "server.ControlManager.Add"); af != nil {
-		replaced := method(c, "server", "Control", "Replaced")
 		idx := field(c, "server", "ControlManager", "ctlsByRunID")
-		if replaced != nil && idx != nil {
+		connF := field(c, "server", "Control", "conn")
+		// "the previous control is told to go": its connection is closed, by Add itself or by a Control method it
+		// calls (Replaced on the confirmed tree); the worker of the old control reacts to the closed connection
+		closesConn := func(in ssa.Instruction) bool {
+			call, ok := in.(ssa.CallInstruction)
+			if !ok || !call.Common().IsInvoke() || call.Common().Method.Name() != "Close" {
+				return false
+			}
+			lf, _ := engine.LoadedField(call.Common().Value)
+			return lf != nil && lf == connF
+		}
+		notifies := func(in ssa.Instruction) bool {
+			if closesConn(in) {
+				return true
+			}
+			call, ok := in.(ssa.CallInstruction)
+			if !ok {
+				return false
+			}
+			cf := engine.CalleeFn(call)
+			if cf == nil || cf.Blocks == nil || cf.Signature.Recv() == nil || !engine.IsNamed(cf.Signature.Recv().Type(), engine.ModPath+"/server", "Control") {
+				return false
+			}
+			hit := false
+			engine.ForEachInstr(cf, func(x ssa.Instruction) {
+				if closesConn(x) {
+					hit = true
+				}
+			})
+			return hit
+		}
+		if idx != nil && connF != nil {
 			n++
 			c.AllPaths("server.ControlManager.Add", engine.PathCheck{Fn: af, Sink: engine.IsReturn,
 				Event: func(in ssa.Instruction) string {
-					if engine.IsCallTo(in, replaced) {
+					if notifies(in) {
 						return "replaced"
 					}
 					if mu, ok := in.(*ssa.MapUpdate); ok {
@@ -236,19 +266,29 @@ func runC12(c *engine.Ctx) {
 		randID := funcObj(c, "pkg/util/util", "RandID")
 		runIDF := field(c, "pkg/msg", "Login", "RunID")
 		if randID != nil && runIDF != nil {
-			for _, rc := range engine.CallsTo(reg, randID) {
-				n++
-				c.AllPaths("server.Service.RegisterControl>run-id", engine.PathCheck{Fn: reg, Sink: engine.Is(rc), Pred: func(st *engine.PathState) string {
-					eq, k := st.Equal(loadOfField(runIDF), func(v ssa.Value) bool { s, ok := engine.ConstString(v); return ok && s == "" })
-					if !(k && eq) {
-						return "a run id is generated although the login carried one (the re-login would not replace its own session)"
-					}
-					return ""
-				}}, "fresh run id only for logins without one")
+			for _, host := range engine.HostsOf(reg, randID) {
+				for _, rc := range engine.CallsTo(host, randID) {
+					n++
+					c.AllPaths("server.Service.RegisterControl>run-id", engine.PathCheck{Fn: host, Sink: engine.Is(rc), Pred: func(st *engine.PathState) string {
+						eq, k := st.Equal(loadOfField(runIDF), func(v ssa.Value) bool { s, ok := engine.ConstString(v); return ok && s == "" })
+						if !(k && eq) {
+							return "a run id is generated although the login carried one (the re-login would not replace its own session)"
+						}
+						return ""
+					}}, "fresh run id only for logins without one")
+				}
 			}
 			// and a login without run id never proceeds without one
 			n++
-			c.AllPaths("server.Service.RegisterControl>run-id-present", engine.PathCheck{Fn: reg, Sink: func(in ssa.Instruction) bool { return engine.IsCallTo(in, cmAdd) },
+			addSites := engine.CallsToVia(reg, cmAdd)
+			c.AllPaths("server.Service.RegisterControl>run-id-present", engine.PathCheck{Fn: reg, Sink: func(in ssa.Instruction) bool {
+				for _, a := range addSites {
+					if in == a.(ssa.Instruction) {
+						return true
+					}
+				}
+				return false
+			},
 				Event: func(in ssa.Instruction) string {
 					if st, ok := in.(*ssa.Store); ok {
 						if lf, _ := engine.LoadedField(st.Addr); lf == runIDF {
@@ -274,4 +314,25 @@ func runC12(c *engine.Ctx) {
 	c.Rule("R6", "Control.worker: pool closed and drained, every proxy closed and unregistered, doneCh closed last on every exit (what WaitClosed waits for is the complete teardown)")
 	checkWorkerTeardown(c)
 	_ = token.NoPos
+
+	// ---- R7 release closures are queued only after the matching registration succeeded (shared with C13.R2) ----
+	c.Rule("R7", "in server/proxy a closure that un-registers a route, listener or group membership is appended to closeFuncs only on paths where the matching registration returned nil: a refused (duplicate) registration must leave the owner's entry alone")
+	c.Floor(checkCleanupAfterAcquire(c), 4)
+
+	// ---- R8 only the owner unregisters a name ----
+	c.Rule("R8", "proxy.Manager.Del is called only with the name of a proxy taken from the calling session's own table (ctl.proxies): a session that lost the race for a name, or a failed registration, never removes the incumbent's entry")
+	n = 0
+	if del := method(c, "server/proxy", "Manager", "Del"); del != nil {
+		proxiesF := field(c, "server", "Control", "proxies")
+		for _, f := range c.P.RepoFuncs() {
+			for _, call := range engine.CallsTo(f, del) {
+				n++
+				args := engine.CallArgs(call)
+				src := engine.Provenance(args[len(args)-1], engine.ProvOpts{})
+				c.Check(proxiesF != nil && src.HasField(proxiesF), c.P.FuncName(f)+">Manager.Del", call.Pos(), len(src.Values), []string{"name: " + src.Summary()},
+					"the unregistered name is that of a proxy found in the session's own table")
+			}
+		}
+	}
+	c.Floor(n, 2)
 }
